@@ -406,6 +406,57 @@ pub fn run(cfg: &Cfg, rep: &mut Report) {
             rep.inc("case_class_members_compiled");
         }
     }
+    // 1d. every class expression of the C12 enumeration (legacy / u brackets, v-mode unions,
+    // intersections, subtractions, nestings, \q{} strings incl. the empty one) is also a compile
+    // case here, with the optimizer on and off
+    for (ps, fl) in super::c12::build(cfg) {
+        idx += 1;
+        let h = fnv64(format!("cs|{}|{}", ps, fl.to_string()).as_bytes());
+        if !cfg.mine(h) || skip(idx) {
+            continue;
+        }
+        let p = cps(&ps);
+        let desc = J::obj().set("pattern", ps.as_str()).set("pattern_cps", J::Arr(p.iter().map(|&c| J::from(c)).collect())).set("flags", fl.to_string()).set("source", "class_expressions");
+        if idx % 64 == 0 {
+            rep.begin(idx, &desc);
+        }
+        rep.inc("programs");
+        rep.inc("source.class_expressions");
+        let out = run_case(rep, &desc, &p, fl, idx % 3 == 0);
+        rep.inc(&format!("outcome.{}", out));
+    }
+    // 1e. alternations of literal and class arms whose UTF-8 encodings share lead bytes (the start
+    // predicate merges the arms' first bytes / common prefixes): all ordered triples and pairs
+    {
+        let arms = ["x", "é", "è", "д", "н", "本", "木", "😀", "😁", "ab", "a", "[0-9]", "да", "нет", "\\d", "(?:)", "ä", "é+", "(é)", "[éè]"];
+        for a in arms {
+            for b in arms {
+                for c in arms.iter().copied().chain(std::iter::once("")) {
+                    let ps = if c.is_empty() { format!("{}|{}", a, b) } else { format!("{}|{}|{}", a, b, c) };
+                    for (k, fl) in ["", "i", "u", "iv"].iter().enumerate() {
+                        idx += 1;
+                        let h = fnv64(format!("alt|{}|{}", ps, fl).as_bytes());
+                        if !cfg.mine(h) || skip(idx) {
+                            continue;
+                        }
+                        // quick tier: every triple under one seed-rotated flag set, all pairs under all four
+                        if cfg.quick() && !c.is_empty() && (k as u64 + cfg.seed + fnv64(ps.as_bytes())) % 4 != 0 {
+                            continue;
+                        }
+                        let p = cps(&ps);
+                        let desc = J::obj().set("pattern", ps.as_str()).set("pattern_cps", J::Arr(p.iter().map(|&c| J::from(c)).collect())).set("flags", *fl).set("source", "literal_alternations");
+                        if idx % 64 == 0 {
+                            rep.begin(idx, &desc);
+                        }
+                        rep.inc("programs");
+                        rep.inc("source.literal_alternations");
+                        let out = run_case(rep, &desc, &p, Flags::from_str(fl), false);
+                        rep.inc(&format!("outcome.{}", out));
+                    }
+                }
+            }
+        }
+    }
     // 2. truncated prefixes and single edits of corpus patterns, all flag sets of {none,u,v} x {none,i}
     let flagsets = ["", "u", "v", "i", "iu", "iv", "ms"];
     let mut rng = Rng::new(cfg.seed ^ 0x07);
